@@ -194,6 +194,7 @@ struct WorkerStats {
   std::vector<uint64_t> viol_seeds;
   std::vector<uint64_t> viol_index;
   std::vector<uint64_t> viol_start;  // first index run by the same process
+  std::vector<std::string> viol_what;  // class/site: message as seen in the batch
   std::string infra_msg;
 };
 
@@ -219,7 +220,7 @@ static void serialize_stats(const WorkerStats& w, int fd) {
   for (auto& kv : w.policies) { snprintf(b, sizeof b, "policy %llu %s\n", (unsigned long long)kv.second, kv.first.c_str()); o += b; }
   for (auto& kv : w.known_hits) { snprintf(b, sizeof b, "knownhit %llu %s\n", (unsigned long long)kv.second, kv.first.c_str()); o += b; }
   for (auto& s : w.samples) { o += "sample "; o += s; o += "\n"; }
-  for (size_t i = 0; i < w.viol_index.size(); i++) { snprintf(b, sizeof b, "viol %llu %llu\n", (unsigned long long)w.viol_index[i], (unsigned long long)w.viol_start[i]); o += b; }
+  for (size_t i = 0; i < w.viol_index.size(); i++) { snprintf(b, sizeof b, "viol %llu %llu ", (unsigned long long)w.viol_index[i], (unsigned long long)w.viol_start[i]); o += b; o += w.viol_what[i]; o += "\n"; }
   if (!w.infra_msg.empty()) { o += "inframsg "; o += w.infra_msg; o += "\n"; }
   o += "hashes ";
   snprintf(b, sizeof b, "%zu\n", w.hashes.size());
@@ -252,7 +253,7 @@ static void account(WorkerStats& st, std::unordered_set<uint64_t>& seen, const R
     case 1: {
       size_t ki;
       if (is_known(r, &ki)) { st.known++; st.known_hits[O.known[ki].desc]++; }
-      else { st.viol++; st.viol_index.push_back(index); st.viol_start.push_back(proc_start); }
+      else { st.viol++; st.viol_index.push_back(index); st.viol_start.push_back(proc_start); st.viol_what.push_back(r.cls + "/" + r.site + ": " + r.msg); }
       break;
     }
     default:
@@ -328,8 +329,10 @@ static void merge_stats(const std::string& txt, WorkerStats& m, std::unordered_s
     } else if (line.compare(0, 7, "sample ") == 0) m.samples.push_back(line.substr(7));
     else if (line.compare(0, 5, "viol ") == 0) {
       unsigned long long a = 0, b2 = 0;
-      sscanf(line.c_str() + 5, "%llu %llu", &a, &b2);
+      int consumed = 0;
+      sscanf(line.c_str() + 5, "%llu %llu %n", &a, &b2, &consumed);
       m.viol_index.push_back(a); m.viol_start.push_back(b2);
+      m.viol_what.push_back(consumed > 0 ? line.substr(5 + (size_t)consumed) : std::string());
     }
     else if (line.compare(0, 9, "inframsg ") == 0) { if (m.infra_msg.empty()) m.infra_msg = line.substr(9); }
     else if (line.compare(0, 7, "hashes ") == 0) {
@@ -753,7 +756,7 @@ static int run_batch() {
       if (a.status == 1 && b.status == 1) printf("note: violation needs the state left by %zu earlier runs in the same process (prelude)\n", g_prelude.size());
     }
     if (!(a.status == 1 && b.status == 1 && a.hash == b.hash && a.cls == b.cls)) {
-      printf("INFRA nondeterministic run at index %llu (seed %llu): status %d/%d class %s/%s hash %llu/%llu — not reported as violation\n", (unsigned long long)idx, (unsigned long long)s.seed, a.status, b.status, a.cls.c_str(), b.cls.c_str(), (unsigned long long)a.hash, (unsigned long long)b.hash);
+      printf("INFRA nondeterministic run at index %llu (seed %llu): status %d/%d class %s/%s hash %llu/%llu — not reported as violation; in the batch it was: %s\n", (unsigned long long)idx, (unsigned long long)s.seed, a.status, b.status, a.cls.c_str(), b.cls.c_str(), (unsigned long long)a.hash, (unsigned long long)b.hash, m.viol_what[best].c_str());
       rc = 2;
     } else {
       printf("violation at index %llu seed %llu: class=%s site=%s\n  %s\n", (unsigned long long)idx, (unsigned long long)s.seed, a.cls.c_str(), a.site.c_str(), a.msg.c_str());
